@@ -82,7 +82,7 @@ func (p *probeCore) Provision(caddy.Context) error {
 	mu.Lock()
 	p.cid, p.nonce = curOp, caseNonce
 	mu.Unlock()
-	if p.App == 3 && p.Idx == 1 {
+	if p.App == 3 {
 		logOrd("P3")
 	}
 	logEv("p", p.cid, p.App, p.Idx)
